@@ -622,6 +622,35 @@ pub fn execute(scn: &Scn, property: &str) -> RunOutcome {
         prev = now;
     }
 
+    if property == "C08" {
+        // the struct-shape dimension: one of the additional shapes, same operation trace
+        let which = (scn.repartition_seed % 4) as usize;
+        let variant = (scn.repartition_seed >> 2) & 7;
+        out.count(&format!("shape_run.{}", crate::shapes::SHAPE_NAMES[which]));
+        out.evaluations += 1;
+        out.distinct.insert(hash_words(&[0x5a5a, which as u64, variant]));
+        match catch(|| crate::shapes::run_shape(which, &scn.ops, variant)) {
+            Ok(None) => {}
+            Ok(Some(detail)) => {
+                out.violation = Some(viol(
+                    "C08",
+                    "excluded-field-written",
+                    scn.ops.len(),
+                    detail,
+                    format!("shape={}", crate::shapes::SHAPE_NAMES[which]),
+                ));
+            }
+            Err(p) => {
+                out.violation = Some(viol(
+                    "C08",
+                    &format!("panic@{}:{}", p.file, p.line),
+                    scn.ops.len(),
+                    format!("shape {} panicked: {}", crate::shapes::SHAPE_NAMES[which], p.describe()),
+                    "panic shape".into(),
+                ));
+            }
+        }
+    }
     if property == "C06" {
         if let Some(v) = check_c06(scn, &mut out, &mut h) {
             out.violation = Some(v);
